@@ -601,3 +601,72 @@ Proof.
   intros Hv. apply lock_new_terminates_gen; [exact Hv|]. intros d He.
   destruct (lookup_fix_right _ _ _ _ Hv He) as (w & H1 & H2 & _). eauto.
 Qed.
+
+(* ------------------------------------------------------------------ keeping a lock file *)
+
+Lemma lookup_entry_In en acc e : lookup_entry en acc = Some e -> In (en, e) acc.
+Proof.
+  induction acc as [|[x y] t IH]; cbn; [discriminate|].
+  destruct (entryname_eqb en x) eqn:E.
+  - apply entryname_eqb_eq in E. subst. intros [= ->]. now left.
+  - intros H. right. auto.
+Qed.
+
+(* If the lock file's entries are a valid solution for the manifest it was made for, and the
+   (edited) manifest finds the lock up to date, then they are a valid solution for the edited
+   manifest too: `copy_from_lock` may be used instead of resolving.  (Needs the repaired matcher:
+   the old one also accepted e.g. a locked 0.3.0 for the requirement 0.2.) *)
+Theorem up_to_date_sound idx man1 man2 (l : lockfile) :
+  valid_solution idx man1 (locked_of (lock_entries l)) = true ->
+  up_to_date matches_fix l man2 = true ->
+  valid_solution idx man2 (locked_of (lock_entries l)) = true.
+Proof.
+  intros Hv Hup. destruct (valid_parts _ _ _ Hv) as (Hnd & _ & Hent).
+  unfold valid_solution. rewrite Hnd. cbn.
+  apply andb_true_iff. split; [|apply forallb_forall; exact Hent].
+  apply forallb_forall. intros d Hd. unfold up_to_date in Hup. rewrite forallb_forall in Hup.
+  specialize (Hup _ Hd). cbn in Hup.
+  destruct (lookup_name (dname d) (fst l)) as [en|]; [|discriminate].
+  destruct (lookup_entry en (snd l)) as [[p ds]|] eqn:Ee; [|discriminate].
+  cbn in Hup. apply andb_true_iff in Hup as [Hid Hm]. apply N.eqb_eq in Hid.
+  apply lookup_entry_In in Ee.
+  assert (Hin : In ((fst p, bucket_of_ver (snd p)), snd p) (locked_of (lock_entries l))).
+  { unfold locked_of, lock_entries. apply in_map_iff. exists p. split; [reflexivity|].
+    apply in_map_iff. exists (en, (p, ds)). auto. }
+  assert (Hsat : satisfies (dreq d) (snd p) = true).
+  { rewrite <- solver_view_is_satisfies, solver_view_is_matches_fix. exact Hm. }
+  unfold dep_ok, dep_key.
+  assert (Hb : bucket_of_req (dreq d) = bucket_of_ver (snd p)).
+  { rewrite <- solver_view_is_satisfies in Hsat. unfold solver_view in Hsat.
+    apply andb_true_iff in Hsat as [Hb _]. exact (bucket_contains_unique _ _ (bucket_of_req_wf _) Hb). }
+  rewrite Hb, Hid, (alookup_nodup _ _ _ Hnd Hin).
+  rewrite <- solver_view_is_satisfies in Hsat. unfold solver_view in Hsat.
+  now apply andb_true_iff in Hsat as [_ Hr].
+Qed.
+
+(* hence every edge of the edited manifest's graph is bound correctly by the copied resolution *)
+Corollary copy_from_lock_right idx man1 man2 (l : lockfile) d :
+  valid_solution idx man1 (locked_of (lock_entries l)) = true ->
+  up_to_date matches_fix l man2 = true ->
+  edge idx man2 (locked_of (lock_entries l)) d ->
+  exists w, index_dep_version matches_fix (copy_from_lock l) d = Some w
+         /\ alookup (dep_key d) (locked_of (lock_entries l)) = Some w
+         /\ satisfies (dreq d) w = true.
+Proof.
+  intros Hv Hup He. unfold copy_from_lock.
+  apply (lookup_fix_right idx man2); [|exact He]. eapply up_to_date_sound; eauto.
+Qed.
+
+(* the old matcher's up-to-date test is refuted: a locked 0.3.0 is "up to date" for 0.2 *)
+Lemma up_to_date_cur_refuted :
+  exists idx man1 man2 (l : lockfile),
+    valid_solution idx man1 (locked_of (lock_entries l)) = true
+    /\ up_to_date matches_cur l man2 = true
+    /\ valid_solution idx man2 (locked_of (lock_entries l)) = false
+    /\ exists_solution idx man2 <> None.
+Proof.
+  exists [PV 0 (V 0 2 0 EmptyString) []; PV 0 (V 0 3 0 EmptyString) []],
+         [Dep "a" 0 (RCompat 0 (Some 3) None)], [Dep "a" 0 (RCompat 0 (Some 2) None)],
+         ([("a"%string, ("a"%string, 0))], [(("a"%string, 0), ((0, V 0 3 0 EmptyString), []))]).
+  vm_compute. repeat split; discriminate.
+Qed.
